@@ -81,10 +81,10 @@ class LineWorld(object):
             def bulk_read(self, n, t):
                 raise Stop()
         self.device = m.AdbDevice(T(self.core), banner=b'verif')
-        self.device._available = True
+        env.set_available(self.device, True)
         self.core.connected = True
         self.device._local_id = start
-        self.device._local_id_lock.is_id = True
+        env.locks_of(self.device)[0].is_id = True
         fn = m.AdbDevice._open
         self.code = fn.__code__
         src, first = inspect.getsourcelines(fn)
@@ -109,7 +109,7 @@ class LineWorld(object):
                 s = l.strip()
                 if body_started and s and not s.startswith('#') and not s.startswith('"""'):
                     self.labels[i + first] = 'line%d' % i
-                if 'with self._local_id_lock' in l or '_local_id_lock' in l:
+                if 'with self._local_id_lock' in l or '_local_id_lock' in l or ('with ' in l and '_lock' in l):
                     body_started = True
 
         def tracer(frame, event, arg):
